@@ -30,6 +30,8 @@ enum BOp {
     SetCred { p: u8, cred: GCred },
     AddSession { p: u8, id: u64, s: GSession },
     ApiToken { s: u8, tok: GV },
+    /// create the replication key/certificate: the one thing the key-handle table stores
+    ReplKey,
 }
 
 #[derive(Debug, Clone, PartialEq, Serialize, Deserialize)]
@@ -65,6 +67,7 @@ fn apply_b(w: &mut QueryServerWriteTransaction<'_>, op: &BOp) -> Result<(), Oper
             let v = GV::Session { id: *id, s: s.clone() }.build().ok_or(OperationError::InvalidValueState)?;
             w.internal_modify(&live(Ref::P(*p).uuid()), &ModifyList::new_list(vec![Modify::Present(Attribute::UserAuthTokenSession, v)]))
         }
+        BOp::ReplKey => w.supplier_get_key_cert(srv::DOMAIN).map(|_| ()),
         BOp::ApiToken { s, tok } => {
             let v = tok.build().ok_or(OperationError::InvalidValueState)?;
             w.internal_modify(&live(Ref::S(*s).uuid()), &ModifyList::new_list(vec![Modify::Present(Attribute::ApiTokenSession, v)]))
@@ -167,9 +170,12 @@ fn arb_steps(w: &Weights, len: std::ops::Range<usize>) -> BoxedStrategy<Vec<BSte
     // a conflict entry originated by replica 0 right before the backup (names 12..15 are rarely taken)
     let endconf = proptest::option::weighted(0.5, (any::<bool>(), 0u8..8, 12u8..16, 12u8..16));
     let creds = proptest::collection::vec(proptest::option::weighted(0.8, val::gcred()), persons as usize);
-    (ops::arb_prefix(w), creds, proptest::collection::vec(step, len), tail, endconf)
-        .prop_map(move |(p, creds, body, tail, endconf)| {
+    (ops::arb_prefix(w), creds, proptest::collection::vec(step, len), tail, endconf, proptest::bool::weighted(0.7))
+        .prop_map(move |(p, creds, body, tail, endconf, replkey)| {
             let mut out: Vec<BStep> = p.into_iter().map(|op| BStep::Do { r: 0, op: BOp::Base(op) }).collect();
+            if replkey {
+                out.push(BStep::Do { r: 0, op: BOp::ReplKey });
+            }
             for (i, c) in creds.into_iter().enumerate() {
                 if let Some(cred) = c {
                     out.push(BStep::Do { r: 0, op: BOp::SetCred { p: i as u8, cred } });
@@ -519,6 +525,9 @@ fn run(rt: &tokio::runtime::Runtime, c: &Case) -> Outcome {
         if n_sess > 0 {
             log.class("backup-has-session");
         }
+        if orig.ids.3.len() > 2 {
+            log.class("backup-has-keyhandle");
+        }
         if n_ts > 0 && n_rc > 0 && n_cred > 0 {
             log.nontrivial();
         }
@@ -729,6 +738,7 @@ fn main() {
     cx.require_class("backup-has-recycled", 10);
     cx.require_class("backup-has-credential", 20);
     cx.require_class("backup-has-conflict", 10);
+    cx.require_class("backup-has-keyhandle", 30);
     cx.require_class("restored-gzip", 30);
     cx.require_class("restored-plain", 30);
     cx.require_class("next-cid-checked", 30);
